@@ -144,6 +144,42 @@ var textTransformers = map[string]bool{"strings.TrimSpace": true, "strings.Trim"
 	"net/url.QueryEscape": true, "net/url.PathEscape": true, "strconv.Unquote": true, "strconv.Quote": true, "(*strings.Replacer).Replace": true,
 	"bytes.TrimSpace": true, "bytes.ToLower": true, "bytes.ToUpper": true, "fmt.Sprintf": true, "fmt.Sprint": true}
 
+// constructsText: some return of g hands back a string that g built itself - from bytes, through a Builder/Buffer, by
+// concatenation, or through a transformer - instead of a piece of what it was given.
+func (w *World) constructsText(g *ssa.Function, depth int) bool {
+	if depth > 2 {
+		return false
+	}
+	built := false
+	for _, r := range returnsUnder(g, nil) {
+		for _, res := range r.Results {
+			if !isStringType(res.Type()) {
+				continue
+			}
+			if localDerives(res, func(v ssa.Value) bool {
+				switch x := v.(type) {
+				case *ssa.Convert:
+					return isStringType(x.Type()) && !isStringType(x.X.Type())
+				case *ssa.BinOp:
+					return x.Op == token.ADD && isStringType(x.Type())
+				case *ssa.Call:
+					n := w.calleeName(x)
+					if textTransformers[n] || w.rendersText(x) || strings.HasSuffix(n, "strings.Builder).String") || strings.HasSuffix(n, "bytes.Buffer).String") {
+						return true
+					}
+					if h := x.Call.StaticCallee(); h != nil && w.isMain(h) && h != g && h.Blocks != nil && isStringType(x.Type()) {
+						return w.constructsText(h, depth+1)
+					}
+				}
+				return false
+			}) {
+				built = true
+			}
+		}
+	}
+	return built
+}
+
 // rendersText: a library call that prints a value as text (String() of a library type such as net.IP or url.URL, the
 // strconv formatters, Join/Repeat, JoinHostPort): what it returns is a canonical rendering, not the bytes received.
 func (w *World) rendersText(cc *ssa.Call) bool {
@@ -202,15 +238,32 @@ func rulePureCapture(c *Ctx, rule string) {
 			}
 			c.Fns[w.fname(fn)] = true
 			var culprit *ssa.Call
+			var constructed *ssa.Convert
 			localDerives(st.Val, func(v ssa.Value) bool {
 				if cc, ok := v.(*ssa.Call); ok && (textTransformers[w.calleeName(cc)] || w.rendersText(cc)) {
 					culprit = cc
 					return true
 				}
+				// text put together from bytes (the body of a merged unescaper / normaliser)
+				if cv, ok := v.(*ssa.Convert); ok && isStringType(cv.Type()) && isByteSlice(cv.X.Type()) {
+					if mk, isCall := cv.X.(*ssa.Call); !isCall || w.calleeName(mk) != "io.ReadAll" {
+						constructed = cv
+						return true
+					}
+				}
+				// a helper of the package that hands back text it has put together itself (an unescaper, a normaliser)
+				if cc, ok := v.(*ssa.Call); ok {
+					if g := cc.Call.StaticCallee(); g != nil && w.isMain(g) && g.Blocks != nil && isStringType(cc.Type()) && w.constructsText(g, 0) {
+						culprit = cc
+						return true
+					}
+				}
 				return false
 			})
 			key := fmt.Sprintf("%s/%s#%d", w.fname(fn), ref, per)
-			if culprit != nil {
+			if constructed != nil {
+				c.bad(rule, key, w.ipos(st), "the text stored into "+ref+" is put together byte by byte inside the decoder (string(bytes) at "+w.ipos(constructed)+"): the component is not kept as received (escapes resolved, characters rewritten) and is re-encoded in the rewritten form")
+			} else if culprit != nil {
 				c.bad(rule, key, w.ipos(st), "the text stored into "+ref+" passed through "+w.calleeName(culprit)+" inside the decoder: the component is not kept byte-identical (blanks, letter case or characters are rewritten when the header is re-encoded)")
 			} else {
 				c.ok(rule, key, w.ipos(st), "constant or pure piece of the input")
